@@ -883,6 +883,10 @@ Definition process_broadcast (cfg : ocfg) (s : ostate) (m : bcast_mode) (frame_i
       else (s0, [OInfo (IBroadcast fn 3 fn)])
   end.
 
+(* BroadcastAction::Processed for a DISABLE_UNSOLICITED *)
+Definition bcast_disable_processed (cfg : ocfg) (fn : N) (obj : objres) : bool :=
+  o_broadcast cfg && (fn =? fn_disable_unsol) && match obj with ObjOk _ _ => true | ObjErr _ => false end.
+
 (* ---------- requests as the transport reader presents them ---------------------------------------- *)
 
 Inductive treq :=
@@ -1042,7 +1046,9 @@ Definition unsol_wait_fragment (cfg : ocfg) (s : ostate) (resp : response) (from
           else (s, None, [])
       | FtSolConfirm q => (bcast_confirmed s false q, None, [])
       | FtBroadcast m =>
-          let '(s1, o) := process_broadcast cfg (upd_deferred s None) m frame_id ctl fn bytes obj in (s1, None, o)
+          let '(s1, o) := process_broadcast cfg (upd_deferred s None) m frame_id ctl fn bytes obj in
+          (* fix F30: a DISABLE_UNSOLICITED processed by broadcast cancels the series like a unicast one *)
+          (s1, if bcast_disable_processed cfg fn obj then Some UrReturnToIdle else None, o)
       | FtMalformed iin2 =>
           let '(s1, _, o) := write_solicited (upd_deferred s None) from (empty_solicited seq iin2) in (s1, None, o)
       | FtNewNonRead hdrs =>
